@@ -263,6 +263,7 @@ type hrWorld struct {
 	countAtClose   int64
 	abort          int32
 	heldCh         chan struct{}
+	handlerDone    chan struct{}
 	holding        bool
 	releaseAccept  func()
 	maxSessions    int
@@ -1820,6 +1821,38 @@ func hrRunScenario(sc *hrScenario, job *hrJob) (out hrOutcome) {
 			case "WExit":
 			case "Sleep":
 				time.Sleep(time.Duration(st.I) * time.Millisecond)
+			case "MOnHRAsync":
+				// the real handler is started and left running (it will sit in a held handshake with the manager lock taken)
+				c := w.cli[st.I]
+				var p *sessionManagerHotRestartParams
+				ok := w.waitFor(hrWaitLimit, func() bool {
+					w.mu.Lock()
+					defer w.mu.Unlock()
+					if len(w.hrq[c]) == 0 {
+						return false
+					}
+					p = w.hrq[c][0]
+					w.hrq[c] = w.hrq[c][1:]
+					return true
+				})
+				if !ok {
+					drifted(si, "no restart event is waiting on this session")
+					return
+				}
+				w.handlerDone = make(chan struct{})
+				w.mHotSince = time.Now()
+				go func() {
+					defer close(w.handlerDone)
+					defer w.goroutinePanic("handler")
+					hrOrigSM(w.sm, p)
+				}()
+			case "WaitHandler":
+				select {
+				case <-w.handlerDone:
+				case <-time.After(hrWaitLimit):
+					drifted(si, "the restart-event handler did not return")
+					return
+				}
 			case "HoldAccept":
 				// the server that owns the path accepts the next connection but does not answer its handshake until released
 				ln := w.oldLn
